@@ -346,9 +346,9 @@ theorem end_refines (cfg : Cfg) (s : Txn) (t : STxn) (h : TSim cfg s t) (commit 
     rw [← h.changed]
     by_cases hc : s.changed = true
     · rw [if_pos hc, if_pos hc]
-      exact ⟨{ zone := h.ver, ver := h.ver, izone := h.iver, iver := h.iver, ro := rfl, ended := rfl, changed := h.changed }, by first | rfl | trivial⟩
+      exact ⟨{ zone := h.ver, ver := h.ver, izone := h.iver, iver := h.iver, ro := rfl, ended := rfl, changed := rfl }, by first | rfl | trivial⟩
     · rw [if_neg hc, if_neg hc]
-      exact ⟨{ zone := h.zone, ver := h.ver, izone := h.izone, iver := h.iver, ro := rfl, ended := rfl, changed := h.changed }, by first | rfl | trivial⟩
+      exact ⟨{ zone := h.zone, ver := h.ver, izone := h.izone, iver := h.iver, ro := rfl, ended := rfl, changed := rfl }, by first | rfl | trivial⟩
 
 /-! ### one call -/
 
